@@ -36,3 +36,158 @@ func VH_C02_search_int64()   { vhC02Search("int64") }
 func VH_C02_search_uint64()  { vhC02Search("uint64") }
 func VH_C02_search_float64() { vhC02Search("float64") }
 func VH_C02_search_string()  { vhC02Search("string") }
+
+// vhC02Mut: Insert / Delete / Update from an arbitrary valid index
+// re-establish the representation invariant and change the multiset of
+// (value,id) entries by exactly the one entry — the inductive step that
+// extends vhC02Search to states reached by histories of any length.
+func vhC02Mut(kind string) {
+	n := vLen("n", 0, vBound("N", 3))
+	spare := vLen("spare", 0, 1)
+	fi, vals, _ := vhBuildIndex(kind, n, spare, false)
+	ids := make([]uint64, n)
+	for i := range ids {
+		ids[i] = uint64(i)
+	}
+	switch vChoice("mut", 3) {
+	case 0: // insert a new object id
+		v := vhVal(kind, "new")
+		err := fi.Insert(v, uint64(n))
+		vAssert("C02.mut.insert.ok", err == nil)
+		vhValidIndex("C02.mut.insert", fi, append(vals, v), append(ids, uint64(n)))
+	case 1: // delete an existing id
+		if n == 0 {
+			return
+		}
+		k := vLen("k", 0, n-1)
+		fi.Delete(uint64(k))
+		wv := append(append([]interface{}{}, vals[:k]...), vals[k+1:]...)
+		wi := append(append([]uint64{}, ids[:k]...), ids[k+1:]...)
+		vhValidIndex("C02.mut.delete", fi, wv, wi)
+		_, still := fi.objectIds[uint64(k)]
+		vAssert("C02.mut.delete.gone", !still)
+	case 2: // update an existing id to an arbitrary value
+		if n == 0 {
+			return
+		}
+		k := vLen("k", 0, n-1)
+		v := vhVal(kind, "new")
+		err := fi.Update(v, uint64(k))
+		vAssert("C02.mut.update.ok", err == nil)
+		wv := append([]interface{}{}, vals...)
+		wv[k] = v
+		vhValidIndex("C02.mut.update", fi, wv, ids)
+	}
+}
+
+func VH_C02_mut_int64()   { vhC02Mut("int64") }
+func VH_C02_mut_uint64()  { vhC02Mut("uint64") }
+func VH_C02_mut_float64() { vhC02Mut("float64") }
+func VH_C02_mut_string()  { vhC02Mut("string") }
+
+// VH_C02_constrain: Constrain(fields) is a valid index holding exactly
+// the entries whose object id occurs in fields (the And of two searches).
+func VH_C02_constrain() {
+	kind := "int64"
+	n := vLen("n", 0, vBound("N", 3))
+	fi, vals, ents := vhBuildIndex(kind, n, 0, false)
+	var fields []*indexedField
+	var wv []interface{}
+	var wi []uint64
+	for i := n - 1; i >= 0; i-- { // any order of presentation
+		if vChoice("_in", 2) == 1 {
+			// the constraining entries come from another field's index: same id, unrelated value
+			fields = append(fields, &indexedField{Value: vhVal("string", "other"), ObjectId: uint64(i)})
+			wv = append(wv, vals[i])
+			wi = append(wi, uint64(i))
+		}
+	}
+	if vChoice("_foreign", 2) == 1 {
+		fields = append(fields, &indexedField{Value: "x", ObjectId: uint64(n + 7)})
+	}
+	c := fi.Constrain(fields)
+	vhValidIndex("C02.constrain", c, wv, wi)
+	for _, e := range c.Index {
+		vAssert("C02.constrain.same_entry", vhCount(ents, e) == 1)
+	}
+}
+
+// VH_C02_regex: the indexed regex search and the un-indexed evaluate()
+// use the same predicate and the same error behaviour (pattern and
+// values symbolic; compile/match are uninterpreted).
+func VH_C02_regex() {
+	n := vLen("n", 0, vBound("N", 2))
+	fi, _, ents := vhBuildIndex("string", n, 0, false)
+	pat := vStringRaw("pattern", vBound("L", 2))
+	probe, _ := searchField(pat)
+	got, err := fi.SearchByRegex(probe)
+	for i := range ents {
+		ev := ents[i].evaluate("~=", probe)
+		if err != nil {
+			vAssert("C02.regex.err_means_no_match", !ev)
+			continue
+		}
+		vAssert("C02.regex.member", vIff(ev, vhCount(got, ents[i]) == 1))
+	}
+	if err != nil {
+		vAssert("C02.regex.err_empty", len(got) == 0)
+	}
+}
+
+// VH_C02_norm: every Go kind accepted by the index is normalised to a
+// canonical kind that preserves order and equality.
+func VH_C02_norm() {
+	var x, y interface{}
+	var lt, eq bool
+	var typ string
+	switch vChoice("kind", 12) {
+	case 0:
+		a, b := vInt8("x"), vInt8("y")
+		x, y, lt, eq, typ = a, b, a < b, a == b, "int8"
+	case 1:
+		a, b := vInt16("x"), vInt16("y")
+		x, y, lt, eq, typ = a, b, a < b, a == b, "int16"
+	case 2:
+		a, b := vInt32("x"), vInt32("y")
+		x, y, lt, eq, typ = a, b, a < b, a == b, "int32"
+	case 3:
+		a, b := vInt("x"), vInt("y")
+		x, y, lt, eq, typ = a, b, a < b, a == b, "int"
+	case 4:
+		a, b := vInt64("x"), vInt64("y")
+		x, y, lt, eq, typ = a, b, a < b, a == b, "int64"
+	case 5:
+		a, b := vUint8("x"), vUint8("y")
+		x, y, lt, eq, typ = a, b, a < b, a == b, "uint8"
+	case 6:
+		a, b := vUint16("x"), vUint16("y")
+		x, y, lt, eq, typ = a, b, a < b, a == b, "uint16"
+	case 7:
+		a, b := vUint32("x"), vUint32("y")
+		x, y, lt, eq, typ = a, b, a < b, a == b, "uint32"
+	case 8:
+		a, b := vUint("x"), vUint("y")
+		x, y, lt, eq, typ = a, b, a < b, a == b, "uint"
+	case 9:
+		a, b := vUint64("x"), vUint64("y")
+		x, y, lt, eq, typ = a, b, a < b, a == b, "uint64"
+	case 10:
+		a, b := vFloat32("x"), vFloat32("y")
+		vAssume(a == a)
+		vAssume(b == b)
+		x, y, lt, eq, typ = a, b, a < b, a == b, "float32"
+	case 11:
+		a, b := vFloat64("x"), vFloat64("y")
+		vAssume(a == a)
+		vAssume(b == b)
+		x, y, lt, eq, typ = a, b, a < b, a == b, "float64"
+	}
+	fx, e1 := newIndexedField(x, 1)
+	fy, e2 := newIndexedField(y, 2)
+	vAssert("C02.norm.accepted", e1 == nil && e2 == nil)
+	vAssert("C02.norm.less", vIff(fx.less(fy), lt))
+	vAssert("C02.norm.equal", vIff(fx.equal(fy), eq))
+	vAssert("C02.norm.greater", vIff(fx.greater(fy), vAnd(vNot(lt), vNot(eq))))
+	fd := FieldDescriptor{Type: typ}
+	vAssert("C02.norm.cast", fx.valueTypeString() == fd.cast())
+}
